@@ -10,7 +10,7 @@ MSG = {1: "--force and --noclobber", 2: "Insufficient arguments", 3: "attern", 4
        5: "Cannot copy a directory to a file", 6: "Multiple sources and destination is not a directory",
        7: "Source does not exist", 8: "Source is directory and --recursive not specified",
        9: ("Cannot copy a directory into itself", "Source is same as destination"),
-       10: "Failed to find source directory name"}
+       10: "Failed to find source directory name", 11: "Multiple sources map to the same destination"}
 
 
 def setup(d):
@@ -34,6 +34,10 @@ def setup(d):
     os.link(os.path.join(d, "a"), os.path.join(d, "hard_a"))
     os.symlink("d1", os.path.join(d, "link_to_d1"))
     os.symlink("nowhere", os.path.join(d, "dangling"))
+    os.makedirs(os.path.join(d, "alt", "d1"))        # other entries with the same last component as a / d1
+    w("alt/a", b"another a\n")
+    w("alt/d1/g", b"g")
+    os.symlink("/etc/hostname", os.path.join(d, "alt", "b"))
 
 
 def gen(rng, quick):
@@ -86,6 +90,20 @@ def gen(rng, quick):
         l = ["d1/f1", "b"]
         l.insert(pos, "a")
         cs.append(("same-among-valid@%d" % pos, l + ["."], True))
+    # 6b. several sources that map onto the same destination entry (cp: "will not overwrite just-created")
+    cs.append(("dup-files", ["a", "alt/a", "out"], True))
+    cs.append(("dup-files-rev", ["alt/a", "a", "outp"], True))
+    cs.append(("dup-link-file", ["alt/b", "b", "out"], True))
+    cs.append(("dup-dirs", ["-r", "d1", "alt/d1", "out"], True))
+    cs.append(("dup-same-twice", ["a", "a", "out"], True))
+    cs.append(("dup-spelling", ["a", "./a", "out"], True))
+    cs.append(("dup-tdir", ["--target-directory", "out", "b", "alt/b"], True))
+    cs.append(("dup-n", ["-n", "alt/b", "b", "out"], True))
+    for pos in (0, 1, 2):
+        l = ["a", "c"]
+        l.insert(pos, "alt/a")
+        cs.append(("dup-among-valid@%d" % pos, l + ["b", "out"], True))
+    cs.append(("dup-glob", ["--glob", "a", "al?/a", "out"], True))
     # 7. contradictory / unknown option values
     cs.append(("n-and-f", ["-n", "-f", "a", "out"], True))
     cs.append(("n-and-f-long", ["--no-clobber", "--force", "-r", "d1", "out"], True))
